@@ -1342,6 +1342,133 @@ def utf8_real(b):
         return None
 
 
+# ----------------------------------------------------------------------------------------------- module-level tocimxml()
+
+def typed_items(rng, t):
+    """specs of typed scalar values of CIM type t, with emphasis on falsy ones (0, 0.0, -0.0, False, '')"""
+    if t in INT_TYPES:
+        lo, hi = spec_limits(t)
+        return [{'k': 'cimint', 'ty': t, 'v': str(v)} for v in (0, 0, lo, hi, 1, rng.randint(lo, hi))]
+    if t in ('real32', 'real64'):
+        xs = [0.0, -0.0, 1.5, -2.0, float('inf'), float('nan'), rng.uniform(-1e6, 1e6)]
+        if t == 'real32':
+            xs = [f32_of_bits(f32_bits(x)) for x in xs]
+        return [{'k': t, 'b': str(f2b(x))} for x in xs]
+    if t == 'boolean':
+        return [{'k': 'bool', 'v': False}, {'k': 'bool', 'v': True}, {'k': 'bool', 'v': False}]
+    if t == 'string':
+        return [A_str(''), A_str('abc'), A_str(' '), A_str('0'), A_str('<&>')]
+    if t == 'char16':
+        return [{'k': 'char16', 's': common.cps(c)} for c in ('a', '0', ' ', 'é')]
+    if t == 'datetime':
+        return [{'k': 'cimdt', 'src': '20200229120000.000000+000'}, {'k': 'cimdt', 'src': '00000000000000.000000:000'},
+                {'k': 'cimdt', 'src': ts_string(rand_ts_fields(rng), rng.randint(-999, 999), rng.choice(TS_PRECS))}]
+    return []
+
+
+def gen_toxml_values(rng, thorough):
+    """values for the module-level pywbem.tocimxml(): scalars, lists and tuples of every CIM type incl. falsy items and None
+    items, plain Python numbers, datetime objects, mixed / untyped items, CIM objects, None"""
+    out = []
+    S = sc_spec_values(rng)
+    types = [t for t in ALL_TYPES if t != 'reference']
+    for _ in range(6000 if thorough else 1500):
+        t = rng.choice(types)
+        pool = typed_items(rng, t)
+        r = rng.random()
+        if r < 0.15:
+            out.append({'v': rng.choice(pool), 't': t, 'seq': None})
+        elif r < 0.85:
+            n = rng.randint(0, 5)
+            items = [rng.choice(pool + [{'k': 'none'}]) for _ in range(n)]
+            out.append({'v': {'k': 'list', 'l': items}, 't': t, 'seq': rng.choice(['list', 'tuple'])})
+        elif r < 0.93:
+            out.append({'v': rng.choice(S), 't': None, 'seq': None})
+        else:
+            out.append({'v': {'k': 'list', 'l': [rng.choice(S) for _ in range(rng.randint(0, 3))]}, 't': None, 'seq': rng.choice(['list', 'tuple'])})
+    out.append({'v': {'k': 'none'}, 't': None, 'seq': None})
+    return out
+
+
+def tuple_as_list(v):
+    return list(v) if isinstance(v, tuple) else v
+
+
+def elem_canon(e):
+    name = e.tagName if hasattr(e, 'tagName') else e.nodeName
+    if name == 'VALUE':
+        kids = [k for k in e.childNodes]
+        return {'VALUE': common.cps(''.join(k.data for k in kids)) if kids else None}
+    if name == 'VALUE.NULL':
+        return 'NULL'
+    if name == 'VALUE.ARRAY':
+        return {'ARRAY': [elem_canon(k) for k in e.childNodes]}
+    return 'OBJECT'
+
+
+def parse_back(xml, t, is_array):
+    from pywbem import _tupletree, _tupleparse
+    doc = '<PROPERTY%s NAME="p" TYPE="%s">%s</PROPERTY%s>' % ('.ARRAY' if is_array else '', t, xml, '.ARRAY' if is_array else '')
+    tt = _tupletree.xml_to_tupletree_sax(doc.encode('utf-8'), 'C06')
+    tp = _tupleparse.TupleParser()
+    return (tp.parse_property_array(tt) if is_array else tp.parse_property(tt)).value
+
+
+def same_typed(a, b):
+    import pywbem
+    if a is None or b is None:
+        return a is None and b is None
+    if isinstance(a, pywbem.CIMFloat):
+        if not isinstance(b, type(a)):
+            return False
+        if math.isnan(a):
+            return math.isnan(b)
+        return f2b(float(a)) == f2b(float(b)) if isinstance(a, pywbem.Real64) else f32_bits(float(a)) == f32_bits(float(b))
+    if isinstance(a, pywbem.CIMDateTime):
+        return isinstance(b, pywbem.CIMDateTime) and dt_json(a) == dt_json(b)
+    if isinstance(a, pywbem.Char16):
+        return isinstance(b, str) and str(a) == str(b)
+    return type(a) is type(b) and a == b
+
+
+def run_toxml_real(run, spec):
+    """pywbem.tocimxml(value) / tocimxmlstr(value) on the real code; for typed values the XML is parsed back with
+    pywbem's own parser: every item (falsy ones and None included) must come back as it was written"""
+    import pywbem
+    v = py_of_val(spec['v'])
+    if spec['seq'] == 'tuple':
+        v = tuple(v)
+    case = {'sub': 'toxml', 'spec': spec}
+    try:
+        e = pywbem.tocimxml(v)
+        xs = pywbem.tocimxmlstr(v)
+    except Exception as ex:  # noqa
+        return exc_class(ex)
+    out = {'ok': elem_canon(e)}
+    if xs != e.toxml():
+        run.violate({'kind': 'tocimxmlstr_differs_from_tocimxml'}, case, {'str': xs[:200]})
+    t = spec['t']
+    if t is not None:
+        try:
+            back = parse_back(e.toxml(), t, spec['seq'] is not None)
+        except Exception as ex:  # noqa
+            run.violate({'kind': 'tocimxml_text_not_parsable', 'type': t, 'array': spec['seq'] is not None, 'exc': type(ex).__name__},
+                        case, {'xml': e.toxml()[:300]})
+            return out
+        orig = list(v) if spec['seq'] is not None else v
+        if spec['seq'] is not None and back is None and orig == []:
+            back = []                                     # an empty VALUE.ARRAY is read as an empty list or None
+        ok = (isinstance(back, list) and len(back) == len(orig) and all(same_typed(a, b) for a, b in zip(orig, back))) \
+            if spec['seq'] is not None else same_typed(orig, back)
+        if not ok:
+            bad = 'length' if spec['seq'] is not None and (not isinstance(back, list) or len(back) != len(orig)) else \
+                next((value_kind(a) + ('(falsy)' if not a and a is not None else '') for a, b in
+                      (zip(orig, back) if spec['seq'] is not None else [(orig, back)]) if not same_typed(a, b)), '?')
+            run.violate({'kind': 'tocimxml_roundtrip_differs', 'type': t, 'array': spec['seq'] is not None, 'item': bad}, case,
+                        {'xml': e.toxml()[:300], 'back': repr(back)[:200]})
+    return out
+
+
 # ----------------------------------------------------------------------------------------------- constructors
 
 CTOR_KINDS = ['CIMProperty', 'CIMParameter', 'CIMQualifier', 'CIMQualifierDeclaration']
@@ -1779,6 +1906,8 @@ def eval_case(run, c, model=None):
     if c['sub'] == 'atomic':
         _o, out, _back = run_atomic_real(run, c['v'])
         return out, None
+    if c['sub'] == 'toxml':
+        return run_toxml_real(run, c['spec']), None
     if c['sub'] == 'ctor':
         out = run_ctor_real(run, c)
         return out, ctor_req(c)
@@ -1877,6 +2006,11 @@ def collect(run, rng, th, scale=1.0):
     for o in run.dteq_out:
         run.count('dt-eq:' + (str(o) if isinstance(o, bool) else o['exc']))
     run.evaluations += len(run.dteq)
+    run.toxml = gen_toxml_values(rng, th)
+    run.toxml_out = [run_toxml_real(run, sp) for sp in run.toxml]
+    for o in run.toxml_out:
+        run.count('tocimxml:' + (o.get('exc') or 'ok'))
+    run.evaluations += len(run.toxml)
     run.atomic = atomic_stream(run, rng, th)
     run.evaluations += len(run.atomic[0]) + len(run.atomic[3])
     run.extra['sizes']['atomic'] = len(run.atomic[0])
@@ -1911,13 +2045,19 @@ def run(run):
     u8_req = {'op': 'utf8', 'items': [list(b) for b in u8_items]}
     run.evaluations += len(u8_items)
     eq_req = {'op': 'dteq', 'pairs': [[dt_json(x), dt_json(y)] for x, y in run.dteq]}
-    at_reqs = [u8_req, eq_req] + [r for _sel, r in rm_reqs] + [{'op': 'atomic', 'items': a_items}, {'op': 'usv', 'items': [usv_item(txt, t) for txt, t in usv]}]
+    tx_req = {'op': 'toxml', 'items': [val_json(tuple_as_list(py_of_val(sp['v'])), with_env=True) for sp in run.toxml]}
+    at_reqs = [tx_req, u8_req, eq_req] + [r for _sel, r in rm_reqs] + [{'op': 'atomic', 'items': a_items}, {'op': 'usv', 'items': [usv_item(txt, t) for txt, t in usv]}]
     answers = common.run_driver(PROP, [{'op': 'limits'}] + reqs + real_reqs + unp_reqs + seq_flat + at_reqs)
     at_answers = answers[-2:]
     rm_answers = answers[len(answers) - 2 - len(rm_reqs):-2]
     eq_answer = answers[len(answers) - 3 - len(rm_reqs)]
     u8_answer = answers[len(answers) - 4 - len(rm_reqs)]
-    answers = answers[:len(answers) - 4 - len(rm_reqs)]
+    tx_answer = answers[len(answers) - 5 - len(rm_reqs)]
+    answers = answers[:len(answers) - 5 - len(rm_reqs)]
+    for sp, want, got in zip(run.toxml, tx_answer['ok'], run.toxml_out):
+        want = {'ok': want} if not (isinstance(want, dict) and 'exc' in want) else want
+        if want != got:
+            run.disagree({'sub': 'toxml', 'spec': sp}, want, got, 'module-level tocimxml()')
     for b, want in zip(u8_items, u8_answer['ok']):
         if want != utf8_real(b):
             run.disagree({'sub': 'utf8', 'bytes': list(b)}, want, utf8_real(b), "bytes.decode('utf-8')")
